@@ -8,7 +8,7 @@ import os
 import sys
 import time
 
-from runner import (VERIF, BUILD, LEAN, build_lean, audit_axioms, grep_forbidden, ALLOWED_AXIOMS, regenerate_tables)
+from runner import (VERIF, BUILD, LEAN, build_lean, audit_axioms, grep_forbidden, ALLOWED_AXIOMS, regenerate_tables, code_drift)
 
 REPLAYS = os.path.join(VERIF, "replays")
 EVIDENCE = os.path.join(VERIF, "evidence")
@@ -35,8 +35,22 @@ class Check:
         self.coverage = {}
         self.assumptions = []
         self.known = load_known_findings()
+        self.drift = None
         os.makedirs(REPLAYS, exist_ok=True)
         os.makedirs(EVIDENCE, exist_ok=True)
+
+    # ---- stream sizes ------------------------------------------------
+    BOOST = 6
+
+    def size(self, quick, thorough):
+        """number of generated cases: the quick size on the tree the model was written against, `BOOST` times
+        more (at most the thorough size) when the Go source of a modelled package differs from the inventory"""
+        if self.tier == "thorough":
+            return thorough
+        if self.drift is None:
+            self.drift = code_drift()
+            self.coverage["code_drift"] = self.drift[:40]
+        return min(thorough, quick * self.BOOST) if self.drift else quick
 
     # ---- obligations -------------------------------------------------
     def obligations(self, theorems):
